@@ -288,7 +288,7 @@ PROPS = {
 }
 
 NOT_APPLICABLE = {
-    "C14": "quantifies over processes, hash seeds and threads; within one run the collected classes are a function of the record stream (u14) and the tail a function of (classes in key order, strings) (u8), but watto::StringTable::into_bytes (the string section) and the absence of HashSet/HashMap iteration in the output path are outside any contract within reach",
+    "C14": "quantifies over processes, hash seeds and threads (a two-run property); a per-call contract can only say that the output is the value of spec functions of its inputs: within one run the collected classes are the abstract fold over the record stream (u14), the tail emits canonical(classes in BTreeMap key order, string bytes) (u8) and the HashSet is used for membership only, but the string-table offsets enter through a ghost table sequence whose interning order is deliberately left open (so that harmless reorderings verify), and watto::StringTable (insert / into_bytes) has no contract that would make the string section a function of the records. The second clause of the statement (`its length equals the length implied by its own header`) IS proved, as obligation file_length_equals_header_implied_length under C09 / C11 (u8), and u20 shows the reader accepts every emitted file",
     "C18": "two lines behind lazy_static! and the optional uuid dependency (SHA-1 inside the dependency); feature is off in the pinned build; a contract would restate the call",
     "C20": "schedules are outside both tools (Kani has no threads; Verus would need its own permission types on code that has no synchronisation); Send+Sync is a type-checker fact",
 }
